@@ -617,3 +617,32 @@ SPECS["C12"] = dict(
     level_text="complete over all 64-bit argument triples for six solver constructors; exhaustive over the nine rules; symbolic over sigma",
     level_note="generalized-solver constructors and Davidson not encoded at IR level; LP64",
 )
+
+
+# ------------------------------------------------------------------------------------------------
+# C15: Davidson solver building blocks
+def c15_jobs(tier):
+    return [dict(harness="c15_davidson", pattern=r".", label="RitzPairs / SearchSpace / correction / initial space", deadline=250)]
+
+
+SPECS["C15"] = dict(
+    run=std_run, jobs=c15_jobs,
+    explanation=("Davidson solver decided on its real building blocks from an arbitrary valid search space (rational orthonormal frame, symbolic symmetric A, n = 3,4, space size 1-3), with the small dense "
+                 "eigen-problem (Eigen::SelfAdjointEigenSolver) replaced by its contract (ascending eigenvalues, S Z = Z D): (1) the matrix handed to the dense solver is V'AV and the cached product equals A*basis "
+                 "after update_operator_basis_product and after restart; (2) the residues RitzPairs forms from the cache equal A x - theta x for the USER's matrix, also after sort() (value / vector / residue / "
+                 "small vector co-permuted, ordered by the rule); (3) check_convergence reports true iff every one of the first nev residual norms is below tol (symbolic residues and tol) and sets the "
+                 "per-root flags accordingly - so Successful implies true residuals below tol; (4) the diagonal-preconditioned correction satisfies corr*(theta - a_ii) = residue, and its division is a "
+                 "definedness obligation: theta == a_ii is possible - the known finding K-C15-1 (0/0 -> NaN, concrete replay replay/c15_davidson_nan.cpp), reported as KNOWN-FINDING; (5) the initial search space "
+                 "consists of distinct unit vectors at the rule's top positions of the diagonal."),
+    functions=["RitzPairs<S>::compute_eigen_pairs, sort, check_convergence", "SearchSpace<S>::initialize_search_space, update_operator_basis_product, restart", "DavidsonSymEigsSolver<Op>::calculate_correction_vector, "
+               "setup_initial_search_space, constructor", "argsort"],
+    stubs=["K6 Eigen::SelfAdjointEigenSolver<Matrix<S>>: fresh ascending eigenvalues d and vectors Z with S Z = Z D (Eigen, not Spectra: assumed)"],
+    bounds={"n": "3, 4", "search space size": "1..3", "nev": "1, 2"},
+    outside=["the iteration loop of JDSymEigsBase::compute_with_guess as a whole, extend_basis / twice_is_enough_orthogonalisation (QR-based, not encoded)", "unit norm / orthonormality of the returned vectors "
+             "(needs Z'Z = I and the orthogonalisation)", "user-supplied non-orthonormal initial spaces", ROUNDING],
+    assumptions=["exact real arithmetic", "cache invariant established by the real update_operator_basis_product (checked)"],
+    policy=dict(events="violation", allow_cut=False),
+    technique="symbolic execution of the real RitzPairs / SearchSpace / correction code from an arbitrary valid search space with a contract stub for the dense eigen-solver; z3 proves residual and cache identities",
+    level_text="bounded symbolic verification of the residual / convergence / ordering algebra of the Davidson solver at n<=4; the outer loop and the orthogonalisation are not claimed",
+    level_note="building blocks only; exact arithmetic; one known finding (unguarded division) reported as KNOWN-FINDING",
+)
